@@ -691,8 +691,16 @@ func c13Pointers(p *core.Prog, r *core.Run, nl *ssa.Function) {
 		}
 		if iff, ok := b.Instrs[len(b.Instrs)-1].(*ssa.If); ok {
 			x := p.X(iff.Cond)
-			if x.Op == "bin" && x.Name == ">=" && strings.Contains(x.String(), "unsafe.Pointer") {
-				back = true
+			if x.Op == "bin" && strings.Contains(x.String(), "unsafe.Pointer") {
+				// target >= current (or current <= target) refuses: the true edge abandons the name
+				tgt, cur := x.Args[0], x.Args[1]
+				op := x.Name
+				if op == "<=" || op == "<" {
+					tgt, cur, op = cur, tgt, map[string]string{"<=": ">=", "<": ">"}[op]
+				}
+				if op == ">=" && strings.Contains(tgt.String(), ".raw[") && !strings.Contains(cur.String(), ".raw[") {
+					back = true
+				}
 			}
 		}
 	}
